@@ -33,7 +33,8 @@ def plan(tier):
 
 def required(tier):
     return ["q:single_aligned", "q:single_unaligned", "q:mixed", "q:all_unaligned", "q:revisit_single",
-            "q:revisit_multi", "q:with_format", "q:whole_file", "q:repeats", "expected_reported_nothing_found"]
+            "q:revisit_multi", "q:with_format", "q:whole_file", "q:repeats", "expected_reported_nothing_found",
+            "selection_gt_1000_records"]
 
 
 def setup(ctx):
@@ -63,7 +64,9 @@ def run_case(ctx, rng, index, casedir):
     sit = collections.Counter()
     viol = []
     outcomes = collections.Counter()
-    w = VC.build(rng, casedir, index, ctx.tier, nrec=rng.choice([2, 5, rng.randint(6, 40)]))
+    hub_case = rng.random() < 0.02  # a selection of well over a thousand records (alignments around a hub node)
+    w = VC.build(rng, casedir, index, ctx.tier, nrec=rng.randint(1300, 2600) if hub_case else rng.choice([2, 5, rng.randint(6, 40)]),
+                 **({"size": "small"} if hub_case else {}))
     o = VC.run_index(w, None if rng.random() < 0.7 else os.path.join(casedir, "x.gvi"))
     if not o.ok:
         # C03's subject; without an index there is nothing to judge here
@@ -82,6 +85,11 @@ def run_case(ctx, rng, index, casedir):
     unaligned = w.unaligned
     revisit_nodes = sorted({n for wk in w.walks for n in [x for x, _ in wk] if [x for x, _ in wk].count(n) > 1} & w.aligned)
     queries = []
+    if hub_case:
+        cnt = collections.Counter(n for ns in w.nodesets for n in ns)
+        hub = cnt.most_common(1)[0][0]
+        queries.append(("hub", [hub]))
+        queries.append(("hub", [hub, rng.choice(aligned)]))
     if aligned:
         queries.append(("single_aligned", [rng.choice(aligned)]))
     if unaligned:
@@ -112,6 +120,8 @@ def run_case(ctx, rng, index, casedir):
         o, out = run_query(w, nodes, fmt, casedir, k, rng)
         outcomes[f"{klass}:{o.kind}"] += 1
         sel = VC.expected_selection(w, nodes)
+        if len(sel) > 1000:
+            sit["selection_gt_1000_records"] += 1
         wit = {"nodes": nodes, "format": fmt, "class": klass, "stable": w.stable, "mode": w.mode,
                "unaligned_in_query": [n for n in nodes if n not in w.aligned]}
         if not sel:
